@@ -91,6 +91,11 @@ def all_cells():
                 for d in ("seq-too-low", "seq-missing", "sender-wrong", "target-missing"):
                     for err in ("reset", "pipe"):
                         cells.append(("B-drainfail", role, st, cls, d, err))
+    # C': two disconnect causes overlapping in time: the first is suspended in the drain() of its Logout when the second arrives
+    for role in ("acceptor", "initiator"):
+        for first in ("app-disconnect-logout", "reader-integrity-logout"):
+            for second in (("eof", "reset", "logout-in", "app-disconnect", "app-disconnect-logout") if first.startswith("app") else ("app-disconnect", "app-disconnect-logout")):
+                cells.append(("C-overlap", role, first, second))
     # C: other disconnect causes, then continuation
     for role in ("acceptor", "initiator"):
         for st in ("active", "awaiting"):
@@ -489,6 +494,71 @@ async def cell_B_same_read(acc, clock, cell, cid):
         return acc.violation("on_disconnect-not-exactly-once", f"on_disconnect called {n.disc - o.disc} times", w, cid)
 
 
+async def cell_C_overlap(acc, clock, cell, cid):
+    import asyncio
+    from asyncfix.connection import ConnectionState as CS
+    from vf.sim.net import settle
+    from vf.sim.sched import Sched
+    _, role, first, second = cell
+    b = await build(clock, role, "active")
+    if b is None:
+        acc.add("start_state_not_reached")
+        return
+    ep, j, peer = b
+    o = Obs(ep, j)
+    E_ = o.live_in
+    sched = Sched()
+
+    async def drain_hook():
+        await sched.wait("drain")
+    ep.vf_writer.drain_hook = drain_hook
+    tasks = []
+    loop = asyncio.get_running_loop()
+
+    async def guarded(coro):
+        try:
+            await coro
+        except Exception as e:
+            ep.ev.append(("disconnect-raised", type(e).__name__))
+    if first == "app-disconnect-logout":
+        tasks.append(loop.create_task(guarded(ep.disconnect(CS.DISCONNECTED_WCONN_TODAY, logout_message="end of day"))))
+    else:
+        ep.vf_reader.feed(mkframe("D", max(1, E_ - 2), "PEER", "ME", [(11, "low")]))
+    await settle()
+    parked = len(sched.gates)
+    if second == "eof":
+        ep.vf_reader.feed_eof()
+    elif second == "reset":
+        ep.vf_reader.set_exception(ConnectionResetError("reset"))
+    elif second == "logout-in":
+        ep.vf_reader.feed(mkframe("5", E_, "PEER", "ME", [(58, "bye")]))
+    elif second == "app-disconnect":
+        tasks.append(loop.create_task(guarded(ep.disconnect(CS.DISCONNECTED_BROKEN_CONN))))
+    elif second == "app-disconnect-logout":
+        tasks.append(loop.create_task(guarded(ep.disconnect(CS.DISCONNECTED_WCONN_TODAY, logout_message="again"))))
+    await settle()
+    for _ in range(10):
+        gs = sched.enabled_gates()
+        if not gs:
+            break
+        sched.release(gs[0])
+        await settle()
+    acc.oracle("C:disconnect-once")
+    n = Obs(ep, j)
+    w = {"cell": cell, "parked_when_second_cause_arrived": parked, "events": ep.ev[o.ev:], "tap": [fixwire.show(x)[:90] for x in ep.vf_tap.frames(o.tap)],
+         "state": [o.state.name, n.state.name]}
+    if parked == 0:
+        acc.add("overlap_not_reached")
+    if n.state > CS.DISCONNECTED_BROKEN_CONN:
+        return acc.violation("overlapping-disconnects:not-disconnected", f"{first} then {second}: state {n.state.name}", w, cid)
+    if n.disc != o.disc + 1:
+        return acc.violation("overlapping-disconnects:on_disconnect-not-exactly-once", f"{first} suspended in drain(), then {second}: on_disconnect called {n.disc - o.disc} times", w, cid)
+    if n.rx != o.rx:
+        return acc.violation("overlapping-disconnects:delivery", "a message was delivered", w, cid)
+    ep.vf_writer.drain_hook = None
+    await continuation(acc, clock, ep, j, peer, cid, w, f"C-overlap/{first}/{second}")
+
+
 async def cell_C(acc, clock, cell, cid):
     from asyncfix.connection import ConnectionState as CS
     from vf.sim import endpoint as E
@@ -593,6 +663,8 @@ def run_shard(spec, acc):
                     await cell_A_send(acc, clock, cell, cid)
                 elif cell[0] == "A-send-in-logon":
                     await cell_A_send_in_logon(acc, clock, cell, cid)
+                elif cell[0] == "C-overlap":
+                    await cell_C_overlap(acc, clock, cell, cid)
                 elif cell[0] == "B-drainfail":
                     await cell_B_drainfail(acc, clock, cell, cid)
                 elif cell[0] == "B":
